@@ -193,7 +193,9 @@ PLANS = {
         "rule": NT_RULE + "; C07: c07_surv: at least one response was put on the wire and at least one surveyor receive "
                 "was judged against the reference model; c07_resp: at least one response was routed and checked at the raw "
                 "surveyors; c07_conc: at least one response was delivered and checked; c07_xpipe: at least one connection "
-                "was busy (a response parked behind it) and at least one response was checked at a raw surveyor",
+                "was busy (a response parked behind it) and at least one response was checked at a raw surveyor; "
+                "c07_sendrace: at least one response was handed out and checked on a context (or the socket) on which two or "
+                "three threads had sent a survey at the same time",
         "budget_s": {"quick": 50, "thorough": 900},
         "scenarios": [
             S("c07_surv", 1200, 36000),
@@ -204,6 +206,7 @@ PLANS = {
             S("c07_dblsend", 400, 12000),   # two threads answer one survey on one respondent socket/context
             S("c07_bp", 600, 18000),       # respondent contexts answering behind a busy connection (scenarios/c07b_backpressure.cc)
             S("c07_xpipe", 600, 18000),    # a respondent context answers a newer survey of ANOTHER surveyor while its earlier response is parked and both connections are busy (scenarios/c07d_crosspipe.cc)
+            S("c07_sendrace", 400, 12000),  # two or three threads send a new survey on the SAME surveyor context/socket at the same instant; raw respondents answer every id they saw once the sends have returned (scenarios/c07e_sendrace.cc)
         ],
         "assumptions": ["sequential scenarios rely on sim_quiesce (horizon 3 ms > largest configured segment latency) to make "
                         "'the response has arrived' a definite point",
